@@ -188,6 +188,17 @@ CHECKS = {
         "harness's transcription of values (str() text, code points, \\w flag per character).",
         "DESIGN.md §6 C19",
     ),
+    "C17": (
+        "Coq proof (generic linearizability of a lock-protected object by a simulation invariant over all schedules, program-order lemma, deadlock freedom; racing-probe / racing-failure / racing-consume corollaries by induction over the lock order) tied by (1) a fail-closed AST translator that regenerates the lock structure of circuit.py / budget.py into Coq on every run, where a discipline obligation must evaluate to true, and (2) line-level schedule exploration of the real classes against their sequential outcomes",
+        "Theorems C17_linearizable, C17_deadlock_free (any object, any number of threads, any programs, any schedule), "
+        "C17_racing_probes, C17_racing_failures, C17_racing_consumes (instances on the Breaker.v / Budget.v models), "
+        "C17_discipline_shape. Step granularity: local prefix (clock read) / acquire / body steps / release; pre-emption within a "
+        "source line, the GIL and lock fairness are not modelled.",
+        "Trusted: Coq kernel + vm_compute; lockstruct.py (classification of statements into locked / unlocked segments and of "
+        "attribute accesses; fails closed on unknown shapes); sched_driver.py (sys.settrace scheduler, cooperative lock replacing "
+        "obj._lock); sequential behaviour tied by C06/C07/C10.",
+        "DESIGN.md §6 C17",
+    ),
 }
 
 NOT_YET = "check not built yet at this commit (work in progress; see DESIGN.md §10 build order)"
